@@ -69,7 +69,13 @@ func (i *contextInitializer) prelaunch() error {
 }
 
 func (i *contextInitializer) initMailbox() error {
-	i.ctx.mailbox = mailbox.NewUnboundedMailbox(256, i.ctx)
+	mb := mailbox.NewUnboundedMailbox(256, i.ctx)
+	if i.ctx.parent != nil {
+		// 子 Actor 的邮箱在 OnLaunch 入队之前不开始处理：OnPrelaunch 中订阅的事件等可能先于 OnLaunch 到达，
+		// 它们只入队，由 ActorOf 在 OnLaunch 入队后放开（Release），保证行为最先看到的是 OnLaunch
+		mb.Hold()
+	}
+	i.ctx.mailbox = mb
 	return nil
 }
 
